@@ -18,9 +18,9 @@ PLANS = {
     "C09": [("gate", 250, 6000), ("fwdonly", 150, 4000)],
     "C10": [("base", 200, 5000), ("fwdonly", 200, 5000), ("redirect", 150, 4000), ("redirorder", 60, 1500)],
     "C11": [("errors", 300, 8000), ("errredir", 250, 6000)],
-    "C13": [("redirect", 300, 7000), ("redirunk", 150, 3000), ("errredir", 150, 3000), ("redirtimeout", 150, 4000)],
-    "C15": [("bclose", 300, 7000), ("redirunk", 150, 3000)],
-    "C16": [("timeout", 400, 10000), ("redirtimeout", 200, 5000), ("redirexpire", 80, 2000)],
+    "C13": [("redirect", 300, 7000), ("redirunk", 150, 3000), ("errredir", 150, 3000), ("redirtimeout", 150, 4000), ("redirmany", 40, 800)],
+    "C15": [("bclose", 300, 7000), ("redirunk", 150, 3000), ("partialloss", 40, 1000)],
+    "C16": [("timeout", 400, 10000), ("redirtimeout", 200, 5000), ("redirexpire", 80, 2000), ("ripen", 16, 300)],
     "C06": [("base", 120, 3000), ("fwdonly", 120, 3000)],
     "C08": [],
     # the event-loop side of C12 (lib/raw_checks.py holds the byte-level catalogue and calls run() here)
@@ -63,9 +63,9 @@ def nontrivial(pid, sc):
     if pid == "C13":
         return any(s["op"] == "answer" and s["kind"] in ("moved", "ask") for s in st)
     if pid == "C15":
-        return any(s["op"] == "bclose" for s in st) or any(s["op"] == "answer" and s["to"].startswith("127.") for s in st)
+        return any(s["op"] in ("bclose", "bclose1") for s in st) or any(s["op"] == "answer" and s["to"].startswith("127.") for s in st)
     if pid == "C16":
-        return any(s["op"] == "expire" for s in st)
+        return any(s["op"] in ("expire", "ripen") for s in st)
     if pid == "C06":
         return any(r["k"] in ("mget", "del", "mset") and len(r["slots"]) >= 2 for r in reqs)
     if pid == "C08":
@@ -121,6 +121,8 @@ def run(pid, tier, seed):
             n = nq if q else nt
             scs = gen_core.gen_many(seed, prof, n)
             ncf = CONF_RW[0] if q else CONF_RW[1]
+            if gen_core.PROFILES[prof].get("conns") or gen_core.PROFILES[prof].get("real_timeout_ms"):
+                ncf = 0      # (not what the design model describes: several connections per node, real time)
             plain = [s for s in scs if not any(st["op"] in ("answerhead", "answerrest", "raw") or st.get("cls", "").startswith("=") for st in _stims(s))]   # (not in the design model)
             rest = [s for s in scs if s not in plain[:ncf]]
             conf_consts = {"TimeoutOn": "TRUE" if gen_core.PROFILES[prof].get("timeout") else "FALSE"}
@@ -178,12 +180,33 @@ def run(pid, tier, seed):
                        for k, (sz, ns, qq, dr) in enumerate([(1500000, 1, True, 6), (500000, 3, True, 2), (600000, 2, False, 4), (3000000, 1, True, 10)], 3)]
             groups.append((dict(raw_checks.BP_CFG_MID), sq, "slowq", None))
             specs["slowq"] = dict(spec="RawTrace", cfgfile="RawTrace.cfg", par=4)
-            cb = [raw_checks.client_backlog_scenario("client-backlog-1")]
+            cb = [raw_checks.client_backlog_scenario("client-backlog-1"), raw_checks.many_replies_scenario("many-replies-1"),
+                  raw_checks.deep_pipeline_scenario("deep-pipeline-mixed"), raw_checks.deep_pipeline_scenario("deep-pipeline-local", n=1100, forwarded=False)]
+            if not q:
+                cb += [raw_checks.many_replies_scenario("many-replies-2", n=9000, spread=True), raw_checks.many_replies_scenario("many-replies-3", n=5000),
+                       raw_checks.deep_pipeline_scenario("deep-pipeline-fwd", n=2500, local=False)]
             if not q:
                 cb += [raw_checks.client_backlog_scenario("client-backlog-2", bigsize=3000000, small=4000),
                        raw_checks.client_backlog_scenario("client-backlog-3", bigsize=400000, small=1500)]
             groups.append((dict(raw_checks.BP_CFG_MID), cb, "cbacklog", None))
             specs["cbacklog"] = dict(spec="OrderTrace", cfgfile="OrderTrace.cfg", par=2)
+        if pid == "C03":
+            # a slow reader whose backlog spills beyond the static part of the outbound buffer and drains piecewise while more
+            # replies arrive: no reply may end up inside another one
+            import raw_checks
+            # (small steps all the way down: a further reply arrives at every level of the remaining backlog, in particular
+            # when less than the static part is left and all of it sits in the list part)
+            il = [raw_checks.slow_reader_interleaved_scenario("interleave-1"),
+                  raw_checks.slow_reader_interleaved_scenario("interleave-fine", bigsize=200000, rounds=24, chunk=10000)]
+            if not q:
+                il += [raw_checks.slow_reader_interleaved_scenario("interleave-2", bigsize=1000000, rounds=8, chunk=90000),
+                       raw_checks.slow_reader_interleaved_scenario("interleave-3", bigsize=150000, rounds=5, chunk=20000),
+                       raw_checks.slow_reader_interleaved_scenario("interleave-fine-2", bigsize=300000, rounds=40, chunk=8000)]
+                groups.append((dict(raw_checks.BP_CFG_MID), [raw_checks.slow_reader_interleaved_scenario("interleave-fine-mid", bigsize=400000, rounds=30, chunk=15000)],
+                               "interleave-mid", None))
+                specs["interleave-mid"] = dict(spec="RawTrace", cfgfile="RawTrace.cfg", par=1)
+            groups.append((dict(raw_checks.BP_CFG), il, "interleave", None))
+            specs["interleave"] = dict(spec="RawTrace", cfgfile="RawTrace.cfg", par=2)
         if pid == "C10":
             # the same order requirement with the node not reading: the proxy's outbound buffer for the node spills
             # beyond its static part and drains piecewise while the client keeps sending (8 KB socket buffers)
@@ -239,6 +262,8 @@ def run(pid, tier, seed):
                     offenders = {x["c"] for x in _stims(sc) if x["op"] == "send" and any(r["k"] == "bad" for r in x["reqs"])} if sc else set()
                     if offenders and v.get("c") and v["c"] not in offenders:
                         v = dict(v, prop="C12", code="other-connection-disturbed:" + v["code"])
+                if tag.startswith("interleave") and (v["code"] in ("reply-bytes-altered", "stray-bytes", "wrong-position", "foreign-data")):
+                    v = dict(v, prop="C03", code="slow-reader:" + v["code"])
                 if tag == "cbacklog" and v["code"] in ("replies-missing", "replies-out-of-step"):
                     v = dict(v, prop=pid, code="slow-reader:" + v["code"])
                 if tag in ("bp", "bp2") and (v["code"].startswith("request-") or v["code"] == "malformed-request-forwarded"):
